@@ -5,7 +5,7 @@ import os
 from lib import core, gen
 
 LEVEL = 'other'
-BBH_FEATURES = ['prover', 'oracle']      # harness command families this check needs (fallback build, lib/core.py build_bbh)
+BBH_FEATURES = ['prover', 'oracle', 'py']      # harness command families this check needs (fallback build, lib/core.py build_bbh)
 
 _spec = importlib.util.spec_from_file_location('prover_diff', f'{core.VERIF}/tools/prover_diff.py')
 pdiff = importlib.util.module_from_spec(_spec)
@@ -45,6 +45,18 @@ def corpus(seed, tier):
     nr = 800 if tier == 'quick' else 20000
     strip(pdiff.cases_random(seed + 20260930, nr), 'r')
     dist['random'] = nr
+    # "transfer with look-ahead" machines: rules that stop being true near the end of a block (F14 family), sensitive to
+    # lax signature/state checks in the rule inference (after seeded changes C03-m2, C03-m4)
+    la = gen.lookahead_machines()
+    for i, p in enumerate(la):
+        out.append((f'l{i}', p, 400))
+    dist['lookahead_machines'] = len(la)
+    # leaves of the real tree generator (3x2 .. 2x4, both trees): short closed orbits, near-arithmetic count sequences
+    # (after seeded change C03-m1: three of four snapshot counts in arithmetic progression)
+    lv = gen.tree_leaves(rng, 1500 if tier == 'quick' else 12000)
+    for i, p in enumerate(lv):
+        out.append((f'v{i}', p, 300 if i % 2 else 100))
+    dist['tree_leaves'] = len(lv)
     if tier == 'quick':                    # keep model time bounded: drop limit-3000 random/tree cases
         out[:] = [c for c in out if not (c[0][0] in 'rt' and c[2] > 1000)]
     return out, dist
@@ -154,23 +166,31 @@ def run(rep, tier, seed):
     _, allapps = C03.collect_apps(cs, h, 0)
     flags, bstats = C03.boundary_checks(allapps, tier)
     diverging = {d[0] for d in diffs}
-    byrun = {}
+    byprog = {}
     for fl in flags:
-        byrun.setdefault(fl[0].split('.')[0], fl)
+        byprog.setdefault(fl[1][1], fl)                 # program text -> first flagged application
+    cids_of = {}
+    for cid, p, lim in cs:
+        cids_of.setdefault(p, []).append(cid)
     failed = {f[0]: f for f in fails}
     nf14 = 0
-    for cid, fl in byrun.items():
-        if cid in diverging:
-            if cid not in failed:
-                fails.append((cid, fl[1][1], 'the verdict rests on a rule application that is not a real run: '
-                              + C03.f14_text(fl).replace('F14 class: ', '')))
-            continue
-        nf14 += 1
-        r = parse_answer(h[cid])
-        why = failed[cid][2] if cid in failed else f'run_prover says {r["kind"]} (marks {r["marks"]}, rulapp {r["rulapp"]}); not confirmed by any real run'
-        if nf14 <= 3:
-            rep.known_finding(f'F14: {why}; the verdict rests on a rule application that is not a run of the machine: ' + C03.f14_text(fl))
-    fails = [f for f in fails if not (f[0] in byrun and f[0] not in diverging)]
+    known_cids = set()
+    for p, fl in byprog.items():
+        for cid in cids_of.get(p, []):
+            r = parse_answer(h.get(cid, ''))
+            if not r or not any(a.split(' ')[2:4] == [fl[1][3], fl[1][4]] and a.split(' ')[5] == fl[1][6] for a in r['apps'] if a.count(' ') == 5):
+                continue                                # this run (limit) does not contain the flagged application
+            if cid in diverging:
+                if cid not in failed:
+                    fails.append((cid, p, 'the verdict rests on a rule application that is not a real run: '
+                                  + C03.f14_text(fl).replace('F14 class: ', '')))
+                continue
+            nf14 += 1
+            known_cids.add(cid)
+            why = failed[cid][2] if cid in failed else f'run_prover says {r["kind"]} (marks {r["marks"]}, rulapp {r["rulapp"]}); not confirmed by any real run'
+            if nf14 <= 3 or cid in failed:
+                rep.known_finding(f'F14: {why}; the verdict rests on a rule application that is not a run of the machine: ' + C03.f14_text(fl))
+    fails = [f for f in fails if f[0] not in known_cids]
     if nf14:
         rep.known_finding(f'F14 class: {nf14} runs in this corpus contain such an application (the faithful model performs it identically)')
     stats['runs_with_F14_application'] = nf14
